@@ -100,3 +100,31 @@ def encode_model(batch_lines, comp, thr):
 def strip_seq(lines):
     """batch lines without seqnos are not needed: seqnos are part of the bytes, keep them."""
     return lines
+
+
+def _blocks(out):
+    blocks, cur = [], []
+    for l in out.splitlines():
+        if l == "--":
+            blocks.append(cur)
+            cur = []
+        else:
+            cur.append(l)
+    return blocks
+
+
+def cuts_impl(journal_file, scratch, cuts):
+    """cuts: list of (m, pad). One fjv process; returns one list of lines per cut."""
+    inp = "".join("%d %d\n" % c for c in cuts)
+    p = subprocess.run([FJV, "readcuts", journal_file, scratch], input=inp, env=ENV, stdout=subprocess.PIPE,
+                       stderr=subprocess.PIPE, text=True, timeout=1200)
+    return _blocks(p.stdout)
+
+
+def cuts_model(journal_file, cuts):
+    inp = "".join("%d %d\n" % c for c in cuts)
+    p = subprocess.run(["bash", "-c", "ulimit -s unlimited 2>/dev/null; exec %s cuts %s" % (FJM, journal_file)],
+                       input=inp, env=ENV, stdout=subprocess.PIPE, stderr=subprocess.PIPE, text=True, timeout=2400)
+    if p.returncode != 0:
+        raise RuntimeError("fjm cuts failed: " + p.stderr[-300:])
+    return _blocks(p.stdout)
